@@ -204,14 +204,32 @@ func genGraph(r *rand.Rand, shape string, nn, np, nc int, lazy bool) *model {
 		m.params = append(m.params, p)
 	}
 	for k := 0; k < nc; k++ {
-		p := mparam{t: tV, v: randVecs(r, r.Intn(5))}
-		kd := kVFmt
-		if r.Intn(2) == 0 {
-			p = mparam{t: tR, rc: randRec(r)}
-			kd = kRFmt
+		var p mparam
+		var kd int
+		switch r.Intn(8) {
+		case 0:
+			p, kd = mparam{t: tV, v: randVecs(r, r.Intn(5))}, kVFmt
+		case 1:
+			p, kd = mparam{t: tR, rc: randRec(r)}, kRFmt
+		case 2, 3, 4:
+			p, kd = mparam{t: tF, f: float64(r.Intn(9)) - 4}, []int{kFBits, kFInv, kFAtan}[r.Intn(3)]
+		case 5, 6:
+			p, kd = mparam{t: tFs, fs: make([]float64, r.Intn(4))}, kFsFmt
+		default:
+			p, kd = mparam{t: tM, mp: map[string]int{"k0": r.Intn(9)}}, kMFmt
 		}
 		m.params = append(m.params, p)
-		m.nodes = append(m.nodes, mnode{kind: kd, named: []*ref{{param: true, idx: len(m.params) - 1}}, lastExec: -1})
+		n := mnode{kind: kd, named: make([]*ref, len(kinds[kd].named)), lastExec: -1}
+		n.named[0] = &ref{param: true, idx: len(m.params) - 1}
+		if kd == kFAtan {
+			// second operand: another float source if there is one (else unwired = -1)
+			for q := range m.params[:len(m.params)-1] {
+				if m.params[q].t == tF && r.Intn(2) == 0 {
+					n.named[1] = &ref{param: true, idx: q}
+				}
+			}
+		}
+		m.nodes = append(m.nodes, n)
 		g.adapters = append(g.adapters, len(m.nodes)-1)
 	}
 	switch shape {
